@@ -269,6 +269,43 @@ pub fn c18(h: &mut H) {
             h.expect(field(&sig, "s").significant_bits() == p.ls, "C18.s_len", "signature randomness s does not have exactly ls bits", &[h.last()]);
         }
     }
+    // boundary draws injected into random_qr (bases) and the commitment-key generation:
+    // r = N-1, 0, 1 square to 1, 0, 1 and must be redrawn
+    {
+        let k = keygen(h, 1);
+        let nm1 = Integer::from(&k.n_mod - 1u32);
+        for first in [nm1.clone(), Integer::from(0), Integer::from(1), Integer::from(&k.p * 2u32)] {
+            let (o, _) = call(h, "cl.bases", vec![k.pk.clone(), json!(2)], vec![("below".into(), first.clone())]);
+            let id = h.last();
+            h.stat("C18.boundary_draw");
+            if let Some(v) = o.ok() {
+                for a in v.as_array().unwrap().iter().map(int_of) {
+                    h.expect(a > 1 && a < k.n_mod && a.clone().gcd(&k.n_mod) == 1, "C18.boundary_qr", "random_qr returned 0, 1 or a non-unit for a boundary draw", &[id]);
+                }
+            } else {
+                h.expect(false, "C18.boundary_panic", "Bases::generate panicked on a boundary draw", &[id]);
+            }
+            let (o, _) = call(h, "cl.cpk", vec![iv(&k.n_mod), json!(1)], vec![("below".into(), first.clone()), ("below".into(), Integer::from(0))]);
+            let id = h.last();
+            if let Some(v) = o.ok() {
+                let hh = field(v, "h");
+                h.expect(hh > 1 && hh.clone().gcd(&k.n_mod) == 1, "C18.boundary_h", "commitment key h is 0, 1 or a non-unit for a boundary draw", &[id]);
+                for g in v["g_bases"].as_array().unwrap().iter().map(int_of) {
+                    h.expect(g > 1 && g.clone().gcd(&k.n_mod) == 1, "C18.boundary_g", "commitment key base is 1 or a non-unit for a boundary exponent draw", &[id]);
+                }
+            }
+        }
+    }
+    // random_qr on small legal moduli (products of two safe primes), many draws, no tape
+    for (n, pp, qq) in [(77u32, 7u32, 11u32), (161, 7, 23), (253, 11, 23), (35, 5, 7)] {
+        let nn = Integer::from(n);
+        for _ in 0..300 {
+            let x = zkryptium::utils::random::random_qr(&nn);
+            let xv = x.to_u32().unwrap();
+            let is_sq = (1..n).any(|y| (y * y) % n == xv);
+            h.expect(xv > 1 && xv < n && xv % pp != 0 && xv % qq != 0 && is_sq, "C18.random_qr_small", &format!("random_qr({}) returned {}", n, xv), &[]);
+        }
+    }
     // the public random helpers, called directly (no tape: the library's own code path)
     let reps = if h.thorough { 10000 } else { 1500 };
     for i in 0..reps {
